@@ -140,6 +140,7 @@ type Server struct {
 	InflightWatch int
 	HoldFirstList chan struct{} // if non-nil the first list waits for this channel (C08)
 	uids          int
+	EmptyListRV   bool // lists carry no resourceVersion of their own
 	Reuse         bool // one live object per key, mutated in place and re-sent by pointer
 	live          map[string]runtime.Object
 	FailFirstKind string // how the held first list fails (a list-script kind; "" = plain error)
@@ -365,6 +366,11 @@ func (s *Server) List(ctx context.Context, opts metav1.ListOptions) (runtime.Obj
 	snap := s.Objects()
 	call.Snapshot = snap
 	rv := strconv.Itoa(s.rv)
+	if s.EmptyListRV {
+		// a client that leaves the list's own metadata.resourceVersion unset
+		// (client-go's fake clientset does): the content is the same
+		rv = ""
+	}
 	detsim.Note("list#%d snapshot rv=%s n=%d", call.N, rv, len(snap))
 	if !sleepCtx(ctx, s.latency(s.ListLatency[1], "post")) {
 		call.Outcome = "cancelled"
@@ -380,6 +386,10 @@ func (s *Server) List(ctx context.Context, opts metav1.ListOptions) (runtime.Obj
 	case "error":
 		call.Outcome = "error"
 		return nil, ErrInjectedList
+	case "error-typed-nil":
+		// a nil *List inside the interface, next to the error
+		call.Outcome = "error"
+		return (*metav1.List)(nil), ErrInjectedList
 	case "error-with-list":
 		// what client-go's typed clients do on failure: a non-nil, well-typed,
 		// empty list object together with the error
@@ -519,6 +529,11 @@ func (s *Server) Watch(ctx context.Context, opts metav1.ListOptions) (watch.Inte
 	if s.F.Roll("watch-connect-error") {
 		call.Outcome = "connect-error"
 		call.Ended = true
+		if detsim.Choose("connect-error-typed-nil", 2) == 1 {
+			// a nil *watcher* inside the interface, next to the error: what
+			// `w, err := newWatcher(...); return w, err` hands back on failure
+			return (*conn)(nil), ErrInjectedWatch
+		}
 		return nil, ErrInjectedWatch
 	}
 	if s.F.Roll("watch-connect-timeout") {
